@@ -81,6 +81,141 @@ Proof.
   rewrite <- !app_assoc. reflexivity.
 Qed.
 
+(* ------------------------------------------------------------------ progress of the batch *)
+Lemma list_eqb_eq a b : list_eqb a b = true -> a = b.
+Proof.
+  revert b. induction a as [|x a IH]; intros [|y b]; cbn [list_eqb]; try discriminate; [reflexivity|].
+  intros Hx. apply andb_true_iff in Hx. destruct Hx as [H1 H2]. f_equal; [lia|apply IH; exact H2].
+Qed.
+
+Lemma dot_reclen e : is_dot e = true -> host_reclen e = 24.
+Proof.
+  unfold is_dot. intros Hd. apply orb_true_iff in Hd. unfold host_reclen, namelen.
+  destruct Hd as [Hd|Hd]; apply list_eqb_eq in Hd; rewrite Hd; reflexivity.
+Qed.
+
+Lemma round8_mono a b : a <= b -> round8 a <= round8 b.
+Proof.
+  intros Hle. unfold round8. apply N.mul_le_mono_r. apply N.div_le_mono; lia.
+Qed.
+
+Lemma host_le_dirent plus e : host_reclen e <= dirent_size plus e.
+Proof.
+  unfold host_reclen, dirent_size. pose proof (round8_mono (19 + namelen e + 1) (24 + namelen e)) as Hm.
+  destruct plus; lia.
+Qed.
+
+Lemma no_visible_all_dots l : visible l = [] -> forallb is_dot l = true.
+Proof.
+  unfold visible. induction l as [|y l IH]; [reflexivity|]. cbn [filter forallb].
+  destruct (is_dot y); cbn [negb andb]; [exact IH|discriminate].
+Qed.
+
+Lemma not_only_dots_visible b : only_dots b = false -> visible b = [] -> b = [].
+Proof.
+  destruct b as [|x b]; [reflexivity|]. unfold only_dots. intros Ho Hv.
+  rewrite (no_visible_all_dots _ Hv) in Ho. discriminate.
+Qed.
+
+(* what the statement asks of a size, for a tree with the re-read loop: it holds the next entry
+   (and a dot record, 24 bytes, which every entry-holding size does) *)
+Definition size_ok (X : rfixes) (plus : bool) (size : N) (rest : list hent) : Prop :=
+  if rx_refill X then 24 <= size /\ spec_size_ok plus size rest else step_ok plus size rest.
+
+Lemma first_fits size rest :
+  24 <= size -> (forall v t, visible rest = v :: t -> host_reclen v <= size) ->
+  match rest with e :: _ => host_reclen e <= size | [] => True end.
+Proof.
+  intros H24 Hv. destruct rest as [|e t]; [exact I|].
+  destruct (is_dot e) eqn:Ed; [rewrite (dot_reclen _ Ed); exact H24|].
+  apply (Hv e (visible t)). unfold visible. cbn [filter]. rewrite Ed. reflexivity.
+Qed.
+
+Lemma refill_progress size : 24 <= size -> forall fuel s b pos,
+  (length s < fuel)%nat ->
+  (forall v t, visible s = v :: t -> host_reclen v <= size) ->
+  (b = [] -> s = []) ->
+  exists b2, fst (refill fuel s size b pos) = ROk b2 /\
+             (visible b <> [] -> b2 = b) /\
+             (visible b = [] -> forall v t, visible s = v :: t -> exists t', visible b2 = v :: t').
+Proof.
+  intros H24. induction fuel as [|f IH]; intros s b pos Hlen Hfit Hnil; [lia|].
+  cbn [refill]. destruct (only_dots b) eqn:Eo.
+  - assert (Hvb : visible b = []) by (apply only_dots_visible; exact Eo).
+    destruct s as [|e ts] eqn:Es.
+    + (* nothing left to read *)
+      cbn [getdents_l skipn length]. exists []. split; [destruct f; reflexivity|].
+      split; [intros Hx; congruence|intros _ v t Hv; discriminate].
+    + rewrite <- Es in *.
+      pose proof (first_fits size s H24 Hfit) as Hff.
+      rewrite (getdents_fits _ _ Hff).
+      destruct (take_fit_prefix host_reclen s size) as [s' Hs'].
+      remember (take_fit host_reclen size s) as b' eqn:Eb'.
+      assert (Hb'ne : b' <> []).
+      { rewrite Eb', Es. rewrite Es in Hff. rewrite take_fit_cons_fit by exact Hff. discriminate. }
+      assert (Hsk : skipn (length b') s = s') by (rewrite Hs' at 1; apply skipn_app_len).
+      rewrite Hsk.
+      assert (Hlen' : (length s' < f)%nat).
+      { assert (Hl : length s = (length b' + length s')%nat) by (rewrite Hs' at 1; apply app_length).
+        destruct b'; [congruence|cbn [length] in Hl; lia]. }
+      destruct (visible b') as [|v0 t0] eqn:Evb'.
+      * destruct (IH s' b' (pos + length b')%nat Hlen') as (b2 & Hr & _ & H2).
+        { intros v t Hv. apply (Hfit v t). rewrite Hs', visible_app, Evb'. exact Hv. }
+        { intros Hx. congruence. }
+        exists b2. split; [exact Hr|]. split; [intros Hx; congruence|].
+        intros _ v t Hv. rewrite Hs', visible_app, Evb' in Hv. cbn [app] in Hv.
+        apply (H2 Evb' v t Hv).
+      * (* the re-read batch has a visible entry: it is returned *)
+        destruct f as [|f']; [lia|].
+        exists b'. cbn [refill].
+        assert (Ho' : only_dots b' = false).
+        { destruct (only_dots b') eqn:E; [|reflexivity]. pose proof (only_dots_visible _ E) as Hx.
+          unfold visible in Evb'. congruence. }
+        rewrite Ho'. cbn [fst]. split; [reflexivity|]. split; [intros Hx; congruence|].
+        intros _ v t Hv. rewrite Hs', visible_app, Evb' in Hv. cbn [app] in Hv. injection Hv as <- _.
+        exists t0. exact Evb'.
+  - exists b. cbn [fst]. split; [reflexivity|]. split; [reflexivity|].
+    intros Hvb v t Hv. rewrite (Hnil (not_only_dots_visible _ Eo Hvb)) in Hv. discriminate.
+Qed.
+
+Lemma batchf_progress X plus size rest :
+  size_ok X plus size rest ->
+  exists B, batchf X size rest = ROk B /\
+            forall v t, visible rest = v :: t -> dirent_size plus v <= size /\ exists t', visible B = v :: t'.
+Proof.
+  unfold size_ok, batchf. destruct (rx_refill X) eqn:Ex.
+  - intros [H24 Hspec].
+    assert (Hv : forall v t, visible rest = v :: t -> dirent_size plus v <= size).
+    { intros v t Hvis. unfold spec_size_ok in Hspec. pose proof (need_visible rest) as Hn.
+      destruct (need rest) as [[n w]|]; [destruct Hn as [t' Hn]; rewrite Hn in Hvis; injection Hvis as <- _; exact Hspec|congruence]. }
+    assert (Hfit : forall v t, visible rest = v :: t -> host_reclen v <= size).
+    { intros v t Hvis. pose proof (Hv v t Hvis). pose proof (host_le_dirent plus v). lia. }
+    pose proof (first_fits size rest H24 Hfit) as Hff. rewrite (getdents_fits _ _ Hff).
+    destruct (take_fit_prefix host_reclen rest size) as [s Hs].
+    set (b := take_fit host_reclen size rest) in *.
+    assert (Hsk : skipn (length b) rest = s) by (rewrite Hs at 1; apply skipn_app_len). rewrite Hsk.
+    assert (Hbnil : b = [] -> s = []).
+    { intros Hb. destruct rest as [|e t]; [rewrite Hb in Hs; cbn in Hs; congruence|].
+      exfalso. unfold b in Hb. rewrite take_fit_cons_fit in Hb by exact Hff. discriminate. }
+    destruct (visible b) as [|v0 t0] eqn:Evb.
+    + destruct (refill_progress size H24 (S (length s)) s b 0%nat (Nat.lt_succ_diag_r _)) as (b2 & Hr & _ & H2);
+        [|exact Hbnil|].
+      { intros v t Hvis. apply (Hfit v t). rewrite Hs, visible_app, Evb. exact Hvis. }
+      exists b2. split; [exact Hr|]. intros v t Hvis. split; [exact (Hv v t Hvis)|].
+      apply (H2 Evb v t). rewrite Hs, visible_app, Evb in Hvis. exact Hvis.
+    + (* the first batch already shows an entry: the loop is not entered *)
+      assert (Ho : only_dots b = false).
+      { destruct (only_dots b) eqn:E; [|reflexivity]. pose proof (only_dots_visible _ E) as Hx.
+        unfold visible in Evb. congruence. }
+      exists b. cbn [refill]. rewrite Ho. cbn [fst]. split; [reflexivity|].
+      intros v t Hvis. split; [exact (Hv v t Hvis)|].
+      rewrite Hs, visible_app, Evb in Hvis. cbn [app] in Hvis. injection Hvis as <- _. exists t0. exact Evb.
+  - intros Hok. pose proof (step_ok_first_fits _ _ _ Hok) as Hff. rewrite (getdents_fits _ _ Hff).
+    eexists. split; [reflexivity|]. intros v t Hvis. unfold step_ok in Hok. pose proof (need_visible rest) as Hn.
+    destruct (need rest) as [[n w]|] eqn:En; [|congruence]. destruct Hn as [t' Hn]. rewrite Hn in Hvis.
+    injection Hvis as <- _. destruct Hok as [Hn1 Hn2]. split; [exact Hn2|]. exact (need_progress _ _ _ _ En Hn1).
+Qed.
+
 (* ------------------------------------------------------------------ the listing client *)
 Record mstep := mk_mstep { ms_noise : list req; ms_handle : N; ms_size : N }.
 
@@ -137,7 +272,7 @@ Theorem listing_complete : forall plan H C pre rest st off plus,
   wrap_total (c_wrap C) -> InvSt (pre ++ rest) st ->
   (c_noopendir C = false -> forall m, In m plan -> hs_open (st_h st (ms_handle m)) = true) ->
   off_at pre off ->
-  plan_ok step_ok H C (pre ++ rest) st off plus plan ->
+  plan_ok (size_ok (c_rx C)) H C (pre ++ rest) st off plus plan ->
   (length (visible rest) < length plan)%nat ->
   exists replies,
     listing H C (pre ++ rest) st off plus plan = map ROk (replies ++ [[]]) /\
@@ -152,25 +287,24 @@ Proof.
   assert (Hi1 : InvSt (pre ++ rest) st1) by (apply run_inv; assumption).
   assert (Hop1 : c_noopendir C = false -> forall m', In m' (m :: t) -> hs_open (st_h st1 (ms_handle m')) = true).
   { intros Hc m' Hm'. unfold st1. rewrite run_open. apply Hop; assumption. }
-  pose proof (step_resume H C pre rest st1 (mk_req (ms_handle m) (ms_size m) off plus) Hg Hs Hi1 Hl Hw
-                (fun Hc => Hop1 Hc m (or_introl eq_refl)) Ho Hnz (step_ok_first_fits _ _ _ Hok)) as Hstep.
+  destruct (batchf_progress _ _ _ _ Hok) as (B & HB & Hprog).
+  pose proof (step_resume H C pre rest st1 (mk_req (ms_handle m) (ms_size m) off plus) B Hg Hs Hi1 Hl Hw
+                (fun Hc => Hop1 Hc m (or_introl eq_refl)) Ho Hnz HB (batchf_sub _ _ _ _ HB)) as Hstep.
   cbn [r_size r_plus r_handle r_offset] in Hstep.
   set (o := step H C (pre ++ rest) st1 (mk_req (ms_handle m) (ms_size m) off plus)) in *.
   rewrite Hstep in *.
-  set (B := take_fit host_reclen (ms_size m) rest) in *.
   set (DD := take_fit (dirent_size plus) (ms_size m) (visible B)) in *.
   assert (Hi2 : InvSt (pre ++ rest) (snd o)) by (apply step_inv; assumption).
   assert (Hop2 : c_noopendir C = false -> forall m', In m' t -> hs_open (st_h (snd o) (ms_handle m')) = true).
   { intros Hc m' Hm'. unfold o. rewrite step_open. apply Hop1; [exact Hc|right; exact Hm']. }
-  destruct (take_fit_prefix host_reclen rest (ms_size m)) as [S HS]. fold B in HS.
+  destruct (batchf_shape _ _ _ _ HB) as (K & S & HS & HK).
   destruct (take_fit_prefix (dirent_size plus) (visible B) (ms_size m)) as [s' Hs']. fold DD in Hs'.
   destruct (snoc_cases DD) as [HDD|(DD' & x & HDD)].
   - (* empty reply: nothing visible remains *)
     assert (Hvis : visible rest = []).
-    { unfold step_ok in Hok. pose proof (need_visible rest) as Hnv.
-      destruct (need rest) as [[n v]|] eqn:En; [|exact Hnv].
-      exfalso. destruct Hok as [Hn Hv]. destruct (need_progress _ _ _ _ En Hn) as [tt Htt]. fold B in Htt.
-      unfold DD in HDD. rewrite Htt in HDD. rewrite take_fit_cons_fit in HDD by lia. discriminate. }
+    { destruct (visible rest) as [|v tv] eqn:Ev; [reflexivity|exfalso].
+      destruct (Hprog v tv eq_refl) as (Hfit & t' & Ht').
+      unfold DD in HDD. rewrite Ht' in HDD. rewrite take_fit_cons_fit in HDD by exact Hfit. discriminate. }
     rewrite HDD in *. cbn [map] in *. unfold last_off in *. cbn [rev] in *.
     destruct t as [|m2 t2].
     + exists []. cbn [app map concat listing]. rewrite Hvis. split; reflexivity.
@@ -179,13 +313,15 @@ Proof.
       exists ([] :: replies). cbn [app map concat]. rewrite Hlist, Hcat. split; reflexivity.
   - (* DD = DD' ++ [x]: resume after x *)
     rewrite HDD in Hs'. rewrite <- app_assoc in Hs'. cbn [app] in Hs'.
-    destruct (filter_prefix_split _ _ _ _ _ Hs') as (B1 & B2 & HB & HB1 & HB2 & Hx).
-    assert (Hd : pre ++ rest = (pre ++ B1 ++ [x]) ++ (B2 ++ S)).
-    { rewrite HS, HB, <- !app_assoc. reflexivity. }
+    destruct (filter_prefix_split _ _ _ _ _ Hs') as (B1 & B2 & HBB & HB1 & HB2 & Hx).
+    assert (Hd : pre ++ rest = (pre ++ (K ++ B1) ++ [x]) ++ (B2 ++ S)).
+    { rewrite HS, HBB, <- !app_assoc. reflexivity. }
     assert (Hvr : visible rest = DD ++ visible (B2 ++ S)).
-    { rewrite HS, HB, HDD. apply visible_split; assumption. }
-    assert (Ho' : off_at (pre ++ B1 ++ [x]) (last_off (map (mkd H (c_wrap C) plus) DD) off)).
-    { right. exists (pre ++ B1), x. split; [rewrite <- app_assoc; reflexivity|].
+    { rewrite HS, HBB, HDD. rewrite app_assoc. rewrite (app_assoc K). apply visible_split; [|exact Hx].
+      change (filter (fun e => negb (is_dot e)) (K ++ B1)) with (visible (K ++ B1)).
+      rewrite visible_app, HK. exact HB1. }
+    assert (Ho' : off_at (pre ++ (K ++ B1) ++ [x]) (last_off (map (mkd H (c_wrap C) plus) DD) off)).
+    { right. exists (pre ++ K ++ B1), x. split; [rewrite <- !app_assoc; reflexivity|].
       rewrite HDD. apply last_off_map. }
     rewrite Hd in Hg, Hs, Hl, Hi2, Hrest |- *.
     assert (Hlen' : (length (visible (B2 ++ S)) < length t)%nat).
@@ -227,39 +363,32 @@ Proof.
       subst rp. unfold last_off in Hrest. cbn [rev] in Hrest.
       destruct (IH H C pre rest (snd o) off plus replies Hg Hs Hl Hw Hi2 Hop2 Ho Hrest) as [s Hs0].
       exists s. cbn [concat app]. exact Hs0. }
-    (* does the first host record fit? otherwise the request fails and cannot be in an all-ok listing *)
-    assert (Hfit : match rest with e :: _ => host_reclen e <= ms_size m | [] => True end).
-    { destruct rest as [|e rt]; [exact I|].
-      destruct (N.le_gt_cases (host_reclen e) (ms_size m)) as [Hle|Hgt]; [exact Hle|exfalso].
-      unfold o in Hfst. rewrite step_unfold in Hfst. cbn [r_size r_handle r_offset r_plus] in Hfst.
-      destruct (ms_size m =? 0) eqn:Ez; [lia|].
-      assert (Hgd : forall uc, fst (gd uc (pre ++ e :: rt) (ms_size m) (length pre)) = RErr EINVAL).
-      { intros uc. unfold gd. rewrite skipn_pre. unfold getdents_l.
-        destruct (host_reclen e <=? ms_size m) eqn:E; [lia|reflexivity]. }
-      destruct (c_noopendir C).
-      - rewrite (fetch_resume H false pre (e :: rt) fresh_fd _ _ Hg Hs I Ho), Hgd in Hfst. discriminate.
-      - rewrite (Hop1 eq_refl m (or_introl eq_refl)) in Hfst. cbn [negb] in Hfst. cbv zeta in Hfst.
-        rewrite (fetch_resume H true pre (e :: rt) _ _ _ Hg Hs (Hi1 _) Ho), Hgd in Hfst. discriminate. }
-    pose proof (step_resume H C pre rest st1 (mk_req (ms_handle m) (ms_size m) off plus) Hg Hs Hi1 Hl Hw
-                  (fun Hc => Hop1 Hc m (or_introl eq_refl)) Ho Hnz Hfit) as Hstep.
+    (* the batch either fails (then so does the request, which cannot be in an all-ok listing) or is B *)
+    destruct (batchf (c_rx C) (ms_size m) rest) as [B|e] eqn:HB.
+    2:{ exfalso. pose proof (step_resume_err H C pre rest st1 (mk_req (ms_handle m) (ms_size m) off plus) e Hg Hs Hi1 Hl Hw
+                  (fun Hc => Hop1 Hc m (or_introl eq_refl)) Ho Hnz HB) as Herr.
+        fold o in Herr. congruence. }
+    pose proof (step_resume H C pre rest st1 (mk_req (ms_handle m) (ms_size m) off plus) B Hg Hs Hi1 Hl Hw
+                  (fun Hc => Hop1 Hc m (or_introl eq_refl)) Ho Hnz HB (batchf_sub _ _ _ _ HB)) as Hstep.
     cbn [r_size r_plus r_handle r_offset] in Hstep. fold o in Hstep. rewrite Hstep in Hfst.
     injection Hfst as Hrp.
-    set (B := take_fit host_reclen (ms_size m) rest) in *.
     set (DD := take_fit (dirent_size plus) (ms_size m) (visible B)) in *.
-    destruct (take_fit_prefix host_reclen rest (ms_size m)) as [S HS]. fold B in HS.
+    destruct (batchf_shape _ _ _ _ HB) as (K & S & HS & HK).
     destruct (take_fit_prefix (dirent_size plus) (visible B) (ms_size m)) as [s' Hs']. fold DD in Hs'.
     destruct (snoc_cases DD) as [HDD|(DD' & x & HDD)].
     + rewrite HDD in Hrp. cbn [map] in Hrp. subst rp. unfold last_off in Hrest. cbn [rev] in Hrest.
       destruct (IH H C pre rest (snd o) off plus replies Hg Hs Hl Hw Hi2 Hop2 Ho Hrest) as [s Hs0].
       exists s. cbn [concat app]. exact Hs0.
     + rewrite HDD in Hs'. rewrite <- app_assoc in Hs'. cbn [app] in Hs'.
-      destruct (filter_prefix_split _ _ _ _ _ Hs') as (B1 & B2 & HB & HB1 & HB2 & Hx).
-      assert (Hd : pre ++ rest = (pre ++ B1 ++ [x]) ++ (B2 ++ S)).
-      { rewrite HS, HB, <- !app_assoc. reflexivity. }
+      destruct (filter_prefix_split _ _ _ _ _ Hs') as (B1 & B2 & HBB & HB1 & HB2 & Hx).
+      assert (Hd : pre ++ rest = (pre ++ (K ++ B1) ++ [x]) ++ (B2 ++ S)).
+      { rewrite HS, HBB, <- !app_assoc. reflexivity. }
       assert (Hvr : visible rest = DD ++ visible (B2 ++ S)).
-      { rewrite HS, HB, HDD. apply visible_split; assumption. }
-      assert (Ho' : off_at (pre ++ B1 ++ [x]) (last_off rp off)).
-      { right. exists (pre ++ B1), x. split; [rewrite <- app_assoc; reflexivity|].
+      { rewrite HS, HBB, HDD. rewrite app_assoc. rewrite (app_assoc K). apply visible_split; [|exact Hx].
+        change (filter (fun e => negb (is_dot e)) (K ++ B1)) with (visible (K ++ B1)).
+        rewrite visible_app, HK. exact HB1. }
+      assert (Ho' : off_at (pre ++ (K ++ B1) ++ [x]) (last_off rp off)).
+      { right. exists (pre ++ K ++ B1), x. split; [rewrite <- !app_assoc; reflexivity|].
         rewrite <- Hrp, HDD. apply last_off_map. }
       rewrite Hd in Hg, Hs, Hl, Hi2, Hrest.
       destruct (IH H C _ _ (snd o) _ plus replies Hg Hs Hl Hw Hi2 Hop2 Ho' Hrest) as [s Hs0].
